@@ -38,25 +38,27 @@ type immCfg struct {
 	//  2 ProxyHeader=X-Forwarded-For + EnableIPValidation (first valid address of the list);
 	//  3 as 2 with TrustProxy on and the peer listed in TrustProxyConfig.Proxies
 	Proxy int
+	Split bool // Config.EnableSplittingOnParsers
 }
 
 func (c immCfg) String() string {
-	return fmt.Sprintf("custom=%v cs=%v strict=%v unescape=%v proxy=%d", c.Custom, c.CaseSens, c.Strict, c.Unescape, c.Proxy)
+	return fmt.Sprintf("custom=%v cs=%v strict=%v unescape=%v proxy=%d split=%v", c.Custom, c.CaseSens, c.Strict, c.Unescape, c.Proxy, c.Split)
 }
 
 // body kinds
 var immKinds = []string{"none", "form", "multipart", "json", "xml", "cbor", "gzip-json"}
 
 type immShape struct {
-	Kind string
-	Fwd  bool // X-Forwarded-Proto / X-Forwarded-Host present
-	Port bool
-	CEnc string // a Content-Encoding the framework does not decode (json/xml/cbor bodies only), "" = none
-	Len  map[string]int
+	Kind  string
+	Fwd   bool // X-Forwarded-Proto / X-Forwarded-Host present
+	Port  bool
+	Comma bool   // the values bound into string and []string fields contain a comma
+	CEnc  string // a Content-Encoding the framework does not decode (json/xml/cbor bodies only), "" = none
+	Len   map[string]int
 }
 
 var immFields = []string{"pa", "pb", "w1", "w2", "qs", "qx", "ql0", "ql1", "s1", "s2", "f1", "f2", "xc", "hs", "hl0", "hl1",
-	"ck", "cs", "cl0", "cl1", "fs", "fv", "fl0", "fl1", "jb", "qkn", "qkv", "hkn", "hkv"}
+	"ck", "cs", "cl0", "cl1", "fs", "fv", "fl0", "fl1", "jb", "qkn", "qkv", "qkw", "hkn", "hkv", "hkw"}
 
 type immReq struct {
 	Shape  *immShape
@@ -80,7 +82,7 @@ const immAlpha = gen.AlphaNum
 const immLower = gen.Lower + gen.Digits
 
 func genShape(r *gen.Rand) *immShape {
-	sh := &immShape{Kind: gen.Pick(r, immKinds), Fwd: r.Chance(1, 3), Port: r.Bool(), Len: map[string]int{}}
+	sh := &immShape{Kind: gen.Pick(r, immKinds), Fwd: r.Chance(1, 3), Port: r.Bool(), Comma: r.Chance(1, 3), Len: map[string]int{}}
 	switch sh.Kind {
 	case "json", "xml", "cbor":
 		sh.CEnc = gen.Pick(r, []string{"", "", "identity", "aws-chunked", "x-verif-none"})
@@ -94,7 +96,40 @@ func genShape(r *gen.Rand) *immShape {
 	for _, f := range []string{"s1", "s2", "f1", "f2", "qkn", "hkn"} {
 		sh.Len[f] = r.Range(1, 20)
 	}
+	if sh.Comma {
+		for _, f := range commaFields {
+			if sh.Len[f] < 3 {
+				sh.Len[f] = 3
+			}
+		}
+	}
 	return sh
+}
+
+// fields that get a comma in the middle when Shape.Comma is set: those bound into string and
+// []string fields by the query, header, cookie and form binders (and reused for the bodies)
+var commaFields = []string{"qs", "ql0", "hs", "hl0", "cs", "cl0", "fs", "fl0"}
+
+func withComma(v string) string {
+	if len(v) < 3 {
+		return v
+	}
+	b := []byte(v)
+	b[len(b)/2] = ','
+	return string(b)
+}
+
+// splitExp is what a []string field receives from the values sent: with EnableSplittingOnParsers
+// every value is cut at its commas.
+func splitExp(split bool, vals ...string) []string {
+	if !split {
+		return vals
+	}
+	var out []string
+	for _, v := range vals {
+		out = append(out, strings.Split(v, ",")...)
+	}
+	return out
 }
 
 func num3(r *gen.Rand) string { return strconv.Itoa(r.Range(100, 199)) }
@@ -137,13 +172,18 @@ func genImmReq(r *gen.Rand, sh *immShape, idx int) *immReq {
 		}
 		q.V[f] = r.StringFrom(al, sh.Len[f])
 	}
+	if sh.Comma {
+		for _, f := range commaFields {
+			q.V[f] = withComma(q.V[f])
+		}
+	}
 	for _, f := range []string{"pn", "qb0", "qb1", "hb", "cb", "fb"} {
 		q.Num[f] = num3(r)
 	}
 	q.IP = [3]string{ip4(r), ip4(r), ip4(r)}
 	v := q.V
 	q.Path = "/cap/" + v["pa"] + "/" + v["pb"] + "/" + q.Num["pn"] + "/" + v["w1"] + "/" + v["w2"]
-	q.Target = q.Path + "?qs=" + v["qs"] + "&qb=" + q.Num["qb0"] + "&qb=" + q.Num["qb1"] + "&ql=" + v["ql0"] + "&ql=" + v["ql1"] + "&qx=" + v["qx"] + "&k" + v["qkn"] + "=" + v["qkv"]
+	q.Target = q.Path + "?qs=" + v["qs"] + "&qb=" + q.Num["qb0"] + "&qb=" + q.Num["qb1"] + "&ql=" + v["ql0"] + "&ql=" + v["ql1"] + "&qx=" + v["qx"] + "&k" + v["qkn"] + "=" + v["qkv"] + "&k" + v["qkn"] + "=" + v["qkw"]
 	q.Host = v["s1"] + "." + v["s2"] + ".example.com"
 	if sh.Port {
 		q.Host += ":8080"
@@ -196,7 +236,7 @@ func genImmReq(r *gen.Rand, sh *immShape, idx int) *immReq {
 	if q.Proto == "HTTP/1.0" {
 		raw.WriteString("Connection: keep-alive\r\n")
 	}
-	raw.WriteString("X-Custom: " + v["xc"] + "\r\nXr" + v["hkn"] + ": " + v["hkv"] + "\r\n")
+	raw.WriteString("X-Custom: " + v["xc"] + "\r\nXr" + v["hkn"] + ": " + v["hkv"] + "\r\nXr" + v["hkn"] + ": " + v["hkw"] + "\r\n")
 	raw.WriteString("X-Forwarded-For: " + q.IP[0] + ", " + q.IP[1] + "\r\n")
 	raw.WriteString("X-Real-Ip: " + q.IP[2] + "\r\n")
 	if sh.Fwd {
@@ -318,6 +358,17 @@ func (s *capSet) L(acc string, vs []string, exp []string) {
 	}
 }
 
+// LX is L, or — when the expected content is not pinned down — every element without expectation.
+func (s *capSet) LX(acc string, vs []string, exp []string, noContent bool) {
+	if !noContent {
+		s.L(acc, vs, exp)
+		return
+	}
+	for _, v := range vs {
+		s.S(acc, v, noExp)
+	}
+}
+
 func (s *capSet) err(where string, err error) {
 	if err != nil {
 		s.errs = append(s.errs, where+": "+err.Error())
@@ -343,6 +394,10 @@ type immF struct {
 	S string   `form:"fs"`
 	B []byte   `form:"fb"`
 	L []string `form:"fl"`
+}
+type immR struct {
+	S string   `respHeader:"Rs"`
+	L []string `respHeader:"Rl"`
 }
 type immU struct {
 	S string   `uri:"pa"`
@@ -381,13 +436,16 @@ func capture(c fiber.Ctx, q *immReq, cfg immCfg, s *capSet) {
 	}
 	s.S("Params", c.Params("*"), wild)
 	s.S("Params[T]", fiber.Params[string](c, "pa"), v["pa"])
+	s.B("Params[[]byte]", fiber.Params[[]byte](c, "pb"), []byte(v["pb"]), true)
 	s.S("Path", c.Path(), q.Path)
 	s.S("OriginalURL", c.OriginalURL(), q.Target)
 	s.S("Protocol", c.Protocol(), q.Proto)
 	s.S("Query", c.Query("qs"), v["qs"])
 	s.S("Query[T]", fiber.Query[string](c, "qx"), v["qx"])
+	s.B("Query[[]byte]", fiber.Query[[]byte](c, "qx"), []byte(v["qx"]), true)
+	s.B("Query[[]byte]", fiber.Query[[]byte](c, "qs"), []byte(v["qs"]), true)
 	rqk, rhk := "k"+v["qkn"], "Xr"+v["hkn"]
-	expQ := map[string]string{"qs": v["qs"], "qb": q.Num["qb1"], "ql": v["ql1"], "qx": v["qx"], rqk: v["qkv"]}
+	expQ := map[string]string{"qs": v["qs"], "qb": q.Num["qb1"], "ql": v["ql1"], "qx": v["qx"], rqk: v["qkw"]}
 	qm := c.Queries()
 	qk := make([]string, 0, len(qm))
 	for k := range qm {
@@ -411,6 +469,7 @@ func capture(c fiber.Ctx, q *immReq, cfg immCfg, s *capSet) {
 	s.S("Get", c.Get(fiber.HeaderContentType), q.CType)
 	s.S("Get", c.Get(fiber.HeaderAccept), q.Accept)
 	s.S("GetReqHeader[T]", fiber.GetReqHeader[string](c, "X-Custom"), v["xc"])
+	s.B("GetReqHeader[[]byte]", fiber.GetReqHeader[[]byte](c, "X-Custom"), []byte(v["xc"]), true)
 	hm := c.GetReqHeaders()
 	hk := make([]string, 0, len(hm))
 	for k := range hm {
@@ -431,7 +490,19 @@ func capture(c fiber.Ctx, q *immReq, cfg immCfg, s *capSet) {
 			s.L("GetReqHeaders.value", vals, []string{q.Accept})
 		case rhk:
 			s.S("GetReqHeaders.key", k, rhk)
-			s.L("GetReqHeaders.value", vals, []string{v["hkv"]})
+			s.L("GetReqHeaders.value", vals, []string{v["hkv"], v["hkw"]})
+		}
+	}
+	rsk := "Xs" + v["hkn"]
+	s.S("GetRespHeader", c.GetRespHeader("Rs"), v["hs"])
+	rm := c.GetRespHeaders()
+	for _, k := range sortedKeys(rm) {
+		switch k {
+		case rsk:
+			s.S("GetRespHeaders.key", k, rsk)
+			s.L("GetRespHeaders.value", rm[k], []string{v["hkv"], v["hkw"]})
+		case "Rl":
+			s.L("GetRespHeaders.value", rm[k], []string{v["hl0"], v["hl1"]})
 		}
 	}
 	s.S("Cookies", c.Cookies("ck"), v["ck"])
@@ -468,15 +539,40 @@ func capture(c fiber.Ctx, q *immReq, cfg immCfg, s *capSet) {
 	s.S("Method", c.Method(), q.Method)
 
 	// --- binding into structs and maps ---------------------------------------------------
+	// With EnableSplittingOnParsers and a comma in the value, what a map target receives, and
+	// whether the header/cookie/form binders split for a struct's []string field (the field lookup
+	// goes by the `query` tag), is not pinned down by the documentation: those combinations are
+	// checked for stability only, not for content.
+	ambiguous := cfg.Split && q.Shape.Comma
+	mapExp := func(sent string) string {
+		if ambiguous {
+			return noExp
+		}
+		return sent
+	}
+	{
+		var st immR
+		s.err("Bind.RespHeader", c.Bind().RespHeader(&st))
+		s.S("Bind.RespHeader.string-field", st.S, v["hs"])
+		s.LX("Bind.RespHeader.slice-field", st.L, []string{v["hl0"], v["hl1"]}, ambiguous)
+	}
 	{
 		var st immQ
 		s.err("Bind.Query", c.Bind().Query(&st))
 		s.S("Bind.Query.string-field", st.S, v["qs"])
 		s.B("Bind.Query.bytes-field", st.B, nil, false)
-		s.L("Bind.Query.slice-field", st.L, []string{v["ql0"], v["ql1"]})
+		s.L("Bind.Query.slice-field", st.L, splitExp(cfg.Split, v["ql0"], v["ql1"]))
 		m := map[string]string{}
 		s.err("Bind.Query.map", c.Bind().Query(&m))
-		s.S("Bind.Query.map-value", m["qs"], v["qs"])
+		s.S("Bind.Query.map-value", m["qs"], mapExp(v["qs"]))
+		ml := map[string][]string{}
+		s.err("Bind.Query.maplist", c.Bind().Query(&ml))
+		s.LX("Bind.Query.map-value", ml["ql"], []string{v["ql0"], v["ql1"]}, ambiguous)
+		for _, k := range sortedKeys(ml) {
+			if k == rqk {
+				s.S("Bind.Query.map-key", k, rqk)
+			}
+		}
 		for _, k := range sortedKeys(m) {
 			if k == rqk {
 				s.S("Bind.Query.map-key", k, rqk)
@@ -488,10 +584,11 @@ func capture(c fiber.Ctx, q *immReq, cfg immCfg, s *capSet) {
 		s.err("Bind.Header", c.Bind().Header(&st))
 		s.S("Bind.Header.string-field", st.S, v["hs"])
 		s.B("Bind.Header.bytes-field", st.B, nil, false)
-		s.L("Bind.Header.slice-field", st.L, []string{v["hl0"], v["hl1"]})
+		s.LX("Bind.Header.slice-field", st.L, []string{v["hl0"], v["hl1"]}, ambiguous)
 		m := map[string][]string{}
 		s.err("Bind.Header.map", c.Bind().Header(&m))
-		s.L("Bind.Header.map-value", m["Hs"], []string{v["hs"]})
+		s.LX("Bind.Header.map-value", m["Hs"], []string{v["hs"]}, ambiguous)
+		s.L("Bind.Header.map-value", m[rhk], []string{v["hkv"], v["hkw"]})
 		s.L("Bind.Header.map-value", m[fiber.HeaderContentType], []string{q.CType})
 		for _, k := range sortedKeys(m) {
 			if k == rhk {
@@ -504,10 +601,10 @@ func capture(c fiber.Ctx, q *immReq, cfg immCfg, s *capSet) {
 		s.err("Bind.Cookie", c.Bind().Cookie(&st))
 		s.S("Bind.Cookie.string-field", st.S, v["cs"])
 		s.B("Bind.Cookie.bytes-field", st.B, nil, false)
-		s.L("Bind.Cookie.slice-field", st.L, []string{v["cl0"], v["cl1"]})
+		s.LX("Bind.Cookie.slice-field", st.L, []string{v["cl0"], v["cl1"]}, ambiguous)
 		m := map[string]string{}
 		s.err("Bind.Cookie.map", c.Bind().Cookie(&m))
-		s.S("Bind.Cookie.map-value", m["cs"], v["cs"])
+		s.S("Bind.Cookie.map-value", m["cs"], mapExp(v["cs"]))
 	}
 	{
 		var st immU
@@ -522,10 +619,10 @@ func capture(c fiber.Ctx, q *immReq, cfg immCfg, s *capSet) {
 		s.err("Bind.Form", c.Bind().Form(&st))
 		s.S("Bind.Form.string-field", st.S, v["fs"])
 		s.B("Bind.Form.bytes-field", st.B, nil, false)
-		s.L("Bind.Form.slice-field", st.L, []string{v["fl0"], v["fl1"]})
+		s.LX("Bind.Form.slice-field", st.L, []string{v["fl0"], v["fl1"]}, ambiguous)
 		m := map[string]string{}
 		s.err("Bind.Form.map", c.Bind().Form(&m))
-		s.S("Bind.Form.map-value", m["fs"], v["fs"])
+		s.S("Bind.Form.map-value", m["fs"], mapExp(v["fs"]))
 	case "json", "gzip-json":
 		var st immJ
 		s.err("Bind.JSON", c.Bind().JSON(&st))
@@ -564,6 +661,7 @@ func immBuild(cfg immCfg, immutable bool, side *immSide) *fiber.App {
 		StrictRouting: cfg.Strict,
 		UnescapePath:  cfg.Unescape,
 	}
+	fc.EnableSplittingOnParsers = cfg.Split
 	switch cfg.Proxy {
 	case 1:
 		fc.ProxyHeader = "X-Real-Ip"
@@ -588,6 +686,12 @@ func immBuild(cfg immCfg, immutable bool, side *immSide) *fiber.App {
 			return c.SendStatus(599)
 		}
 		q := side.reqs[i]
+		// response headers a handler might set before it looks at them again
+		c.Set("Rs", q.V["hs"])
+		c.Response().Header.Add("Rl", q.V["hl0"])
+		c.Response().Header.Add("Rl", q.V["hl1"])
+		c.Response().Header.Add("Xs"+q.V["hkn"], q.V["hkv"])
+		c.Response().Header.Add("Xs"+q.V["hkn"], q.V["hkw"])
 		cs := &capSet{req: i, phase: "first-read"}
 		capture(c, q, cfg, cs)
 		// what a handler ordinarily does next: read-only helpers. None of them may disturb a value
@@ -668,7 +772,7 @@ func runImmutable(e *ev.Env) {
 	immCorpus(e)
 	e.Cases("run", e.N(300, 20000), func(c *ev.Case) {
 		r := c.R
-		cfg := immCfg{Custom: r.Chance(1, 3), CaseSens: r.Bool(), Strict: r.Bool(), Unescape: r.Bool(), Proxy: r.Intn(4)}
+		cfg := immCfg{Custom: r.Chance(1, 3), CaseSens: r.Bool(), Strict: r.Bool(), Unescape: r.Bool(), Proxy: r.Intn(4), Split: r.Bool()}
 		sh := genShape(r)
 		n := gen.Pick(r, []int{1, 3, 10})
 		judgeImm(e, c, cfg, sh, n, r)
@@ -815,6 +919,22 @@ func immCorpus(e *ev.Env) {
 			judgeImm(e, c, immCfg{}, sh, 1, c.R)
 		})
 	}
+	e.Corpus("splitting-commas-form", func(c *ev.Case) {
+		sh := genShape(c.R)
+		sh.Kind, sh.Comma = "form", true
+		for _, f := range commaFields {
+			sh.Len[f] = 7
+		}
+		judgeImm(e, c, immCfg{Split: true}, sh, 1, c.R)
+	})
+	e.Corpus("no-splitting-commas-get", func(c *ev.Case) {
+		sh := genShape(c.R)
+		sh.Kind, sh.Comma = "none", true
+		for _, f := range commaFields {
+			sh.Len[f] = 7
+		}
+		judgeImm(e, c, immCfg{}, sh, 3, c.R)
+	})
 	e.Corpus("one-followup-customctx", func(c *ev.Case) {
 		sh := genShape(c.R)
 		sh.Kind = "form"
